@@ -892,7 +892,7 @@ def gen_blocking(rng):
 
 
 def gen_score(rng):
-    c = c02.gen_case(rng, engine="sqlite")  # "sqlite": no u = 0 level (K6, kept as a corpus case)
+    c = c02.gen_case(rng, engine="sqlite")  # engine-free base case (u = 0 levels included since the repair of K6)
     if rng.random() < 0.3:
         ws = [w for x, y in c02.pairs_of(c) for _, w in [c02.oracle_weight(c, x, y)] if w is not None and w != math.inf]
         if ws:
